@@ -401,15 +401,26 @@ func processLogFile(absoluteFileName string, output chan *LogEntryInfo) (err err
 		return err
 	}
 	lineNumber := 0
-	scanner := bufio.NewScanner(f)
-	for scanner.Scan() {
-		logEntryInfo := &LogEntryInfo{
-			RawLogEntry: scanner.Text(),
-			FileInfo:    fileInfo,
-			LineNumber:  lineNumber,
+	// lines are read without an upper bound on their length: a bufio.Scanner silently stops at the first line
+	// longer than its buffer, which would leave the rest of the file unverified
+	reader := bufio.NewReader(f)
+	for {
+		line, readErr := reader.ReadString('\n')
+		if len(line) > 0 {
+			line = strings.TrimSuffix(strings.TrimSuffix(line, "\n"), "\r")
+			logEntryInfo := &LogEntryInfo{
+				RawLogEntry: line,
+				FileInfo:    fileInfo,
+				LineNumber:  lineNumber,
+			}
+			output <- logEntryInfo
+			lineNumber++
 		}
-		output <- logEntryInfo
-		lineNumber++
+		if readErr == io.EOF {
+			return nil
+		}
+		if readErr != nil {
+			return readErr
+		}
 	}
-	return nil
 }
